@@ -283,7 +283,11 @@ def gen_program(rng, crate, index, size):
             consts, const_expr = [], None
             if kind in ("consts", "consts_args"):
                 consts = rng.sample([1, 2, 4, 8, 16, 32, 100, 7], rng.randrange(2 if kind == "consts_args" else 1, 5))
-                const_expr = "[%s]" % ", ".join(map(str, consts))
+                # how a literal is spelled is the author's business (radix, padding, separators, suffix): the row is named by the value
+                def spell(v):
+                    return rng.choice([str(v)] * 5 + [hex(v), "0o%o" % v, "0b%s" % bin(v)[2:], "00%d" % v, "%d_usize" % v, "%dusize" % v, "0x%X" % v,
+                                                    "1_00" if v == 100 else str(v)])
+                const_expr = "[%s]" % ", ".join(spell(c) for c in consts)
             elif kind == "consts_ext":
                 ext_consts = [("crate::SIZES_A", [1, 2, 4, 8, 16]), ("crate::SIZES_20", list(range(20, 0, -1))), ("crate::SIZES_1", [3])]
                 const_expr, consts = rng.choice(ext_consts) if force_form is None else ext_consts[force_form]
@@ -293,7 +297,7 @@ def gen_program(rng, crate, index, size):
                 const_ty, const_expr, consts, ckind = TYPED_CONSTS[force_form if force_form is not None else rng.randrange(len(TYPED_CONSTS))]
             elif kind == "both":
                 consts = rng.sample([1, 2, 3, 10, 20], rng.randrange(1, 4))
-                const_expr = "[%s]" % ", ".join(map(str, consts))
+                const_expr = "[%s]" % ", ".join(rng.choice([str(c)] * 4 + [hex(c), "0%d" % c, "0b%s" % bin(c)[2:]]) for c in consts)
             empty = (rng.random() < 0.07 or force_empty) and kind in ("types", "consts")
             if empty:
                 tys, consts = [], []
